@@ -10,7 +10,10 @@
 (* Input: ndjson ($TRACE_FILE), one trace per line:                        *)
 (*   [id, hist : the history exactly as History.tla exported it,           *)
 (*        inc  : Seq(program indices whose text contains the incantation), *)
-(*        events : Seq([step, a, seed, prog, pred, mode, used, sql, aux])] *)
+(*        attrs : Seq([n, stage, eng]) stage and engine of every program,  *)
+(*        events : Seq([step, a, seed, prog, pred, mode, used, pf, sql,    *)
+(*                      aux])]                                             *)
+(* (pf: the text did not parse - no rules object exists for this event)    *)
 (* step is the index of the action of hist the event belongs to; a = "new" *)
 (* for the start of a process (seed = its PYTHONHASHSEED), a = "ev" for    *)
 (* one compiled predicate: sql / aux are sha256 of the masked SQL text and *)
@@ -28,8 +31,11 @@
 (* deviating Compile, the two digests and where the first digest was       *)
 (* recorded.  `explained` is TRUE when the implementation-shaped model of  *)
 (* HistoryDef (sticky parser flag) says this Compile parsed a program      *)
-(* without the incantation while the experimental syntax was on: used to   *)
-(* classify a deviation, never to accept one.                              *)
+(* without the incantation while the experimental syntax was on;           *)
+(* `explained_fail` the same for the model in which only a FAILED parse    *)
+(* leaves the flag on; `explained_leak` when another engine's tables were  *)
+(* built earlier in the process: used to label a deviation, never to       *)
+(* accept one.                                                             *)
 (***************************************************************************)
 EXTENDS HistoryDef, TLC, Json, IOUtils, TLCExt
 
@@ -40,6 +46,7 @@ VARIABLES pos, seen
 Key(e) == ToString(e.prog) \o "/" \o e.pred
 NoDev == <<>>
 Inc(t, p) == p \in HRange(t.inc)
+Attr(t, p) == CHOOSE a \in HRange(t.attrs) : a.n = p
 
 StepEvents(t, s) == SelectSeq(t.events, LAMBDA e : e.step = s)
 
@@ -48,10 +55,10 @@ Ordered(t) ==
   /\ {t.events[k].step : k \in 1..Len(t.events)} = 1..Len(t.hist)
 
 (* used flags of the events of one Compile action *)
-UsedShape(evs, m, usedBefore) ==
+UsedShape(evs, m, usedBefore, stage) ==
   LET n == Len(evs)
       u(k) == evs[k].used
-  IN IF m = "parse" THEN \A k \in 1..n : ~u(k)
+  IN IF m = "parse" \/ stage = "parse" THEN \A k \in 1..n : ~u(k)
      ELSE IF usedBefore THEN \A k \in 1..n : u(k)
      ELSE /\ n >= 2 /\ n % 2 = 0
           /\ \A k \in 1..(n \div 2) :
@@ -64,15 +71,18 @@ CompileShape(t, s, evs, ps) ==
      /\ Len(evs) >= 1
      /\ \A k \in 1..Len(evs) :
           evs[k].a = "ev" /\ evs[k].prog = h.n /\ evs[k].mode = h.mode
-     /\ UsedShape(evs, h.mode, UsedBefore(ps, h.n, h.mode))
+     /\ \A k \in 1..Len(evs) : evs[k].pf = evs[1].pf
+     /\ UsedShape(evs, h.mode, UsedBefore(ps, h.n, h.mode),
+                  IF evs[1].pf THEN "parse" ELSE "ok")
 
-Dev(t, s, e, clause, want, explained) ==
+Dev(t, s, e, clause, want, ex) ==
   [clause |-> clause, step |-> s, prog |-> e.prog, pred |-> e.pred,
    mode |-> e.mode, used |-> e.used,
    got |-> IF clause = "aux" THEN e.aux ELSE e.sql,
    want |-> IF clause = "aux" THEN want.aux ELSE want.sql,
    first_trace |-> want.tid, first_step |-> want.step,
-   explained |-> explained]
+   explained |-> ex.sticky, explained_fail |-> ex.fail,
+   explained_leak |-> ex.leak]
 
 (* digests of the events of one Compile action, in order *)
 RECURSIVE RunEvents(_, _, _, _, _, _, _)
@@ -98,32 +108,45 @@ RunEvents(t, s, evs, k, sn, devs, explained) ==
 ShapeDev(t, s) ==
   [clause |-> "shape", step |-> s, prog |-> t.hist[s].n, pred |-> "",
    mode |-> t.hist[s].mode, used |-> FALSE, got |-> "", want |-> "",
-   first_trace |-> "", first_step |-> 0, explained |-> FALSE]
+   first_trace |-> "", first_step |-> 0, explained |-> FALSE,
+   explained_fail |-> FALSE, explained_leak |-> FALSE]
 
-RECURSIVE RunSteps(_, _, _, _, _)
-RunSteps(t, s, ps, sn, devs) ==
+(* ps: process state under the "asbuilt" flag model, ps2: under "failsticky" *)
+RECURSIVE RunSteps(_, _, _, _, _, _)
+RunSteps(t, s, ps, ps2, sn, devs) ==
   IF s > Len(t.hist) THEN [seen |-> sn, devs |-> devs]
   ELSE
     LET h == t.hist[s]
         evs == StepEvents(t, s)
     IN IF h.a = "new"
        THEN LET ok == Len(evs) = 1 /\ evs[1].a = "new" /\ evs[1].seed = h.n
-            IN RunSteps(t, s + 1, FreshProc(h.n), sn,
+            IN RunSteps(t, s + 1, FreshProc(h.n), FreshProc(h.n), sn,
                         IF ok THEN devs ELSE devs \o <<ShapeDev(t, s)>>)
        ELSE IF ~CompileShape(t, s, evs, ps)
-       THEN RunSteps(t, s + 1, ps, sn, devs \o <<ShapeDev(t, s)>>)
+       THEN RunSteps(t, s + 1, ps, ps2, sn, devs \o <<ShapeDev(t, s)>>)
        ELSE
          LET inc == Inc(t, h.n)
-             explained == UnderFun(ps, h.n, h.mode, inc) /\ ~inc
-             r == RunEvents(t, s, evs, 1, sn, devs, explained)
-         IN RunSteps(t, s + 1, AfterCompile(ps, h.n, h.mode, inc), r.seen,
-                     r.devs)
+             decl == Attr(t, h.n)
+             \* whether a rules object came to exist is OBSERVED (a program
+             \* declared to fail at parse that parses is a digest deviation,
+             \* not a malformed recording)
+             a == [decl EXCEPT !.stage =
+                     IF evs[1].pf THEN "parse"
+                     ELSE IF decl.stage = "parse" THEN "ok" ELSE decl.stage]
+             ex == [sticky |-> UnderFun(ps, h.n, h.mode, inc) /\ ~inc,
+                    fail |-> UnderFun(ps2, h.n, h.mode, inc) /\ ~inc,
+                    leak |-> OtherEngineBefore(ps, a.eng)]
+             r == RunEvents(t, s, evs, 1, sn, devs, ex)
+         IN RunSteps(t, s + 1,
+                     AfterCompile("asbuilt", ps, h.n, h.mode, inc, a.stage, a.eng),
+                     AfterCompile("failsticky", ps2, h.n, h.mode, inc, a.stage, a.eng),
+                     r.seen, r.devs)
 
 Run(t, sn) ==
   IF ~Ordered(t)
   THEN [seen |-> sn,
         devs |-> <<[ShapeDev(t, 1) EXCEPT !.clause = "shape-order"]>>]
-  ELSE RunSteps(t, 1, NoProc, sn, <<>>)
+  ELSE RunSteps(t, 1, NoProc, NoProc, sn, <<>>)
 
 Init ==
   /\ TLCSet(100, ndJsonDeserialize(IOEnv.TRACE_FILE))
